@@ -766,6 +766,7 @@ impl World {
                 }
             }
         }
+        let mut left_snapshot: Vec<u64> = vec![];
         {
             let default_cap = cfg.max_inflight;
             let l = self.nodes[i].live.as_mut().unwrap();
@@ -791,10 +792,39 @@ impl World {
                     f.window.clear();
                     f.probe_out = false;
                 }
+                // a snapshot stays outstanding until the follower answers or the application
+                // reports its fate: nothing else may reopen the append stream
+                if same_lead && pre_st == Some(ProgressState::Snapshot) && *st != ProgressState::Snapshot {
+                    let ok = match kind {
+                        CallKind::ReportSnap(to, _) => *to == *pid,
+                        CallKind::Step(m) => m.from == *pid && m.get_msg_type() == MessageType::MsgAppendResponse,
+                        _ => false,
+                    };
+                    if !ok {
+                        left_snapshot.push(*pid);
+                    }
+                }
                 if responded == Some(*pid) {
                     f.probe_out = false;
                 }
             }
+        }
+        for pid in left_snapshot {
+            ctx.v(
+                "C13",
+                "progress left Snapshot state although the snapshot is still outstanding",
+                format!(
+                    "leader {}: follower {} left Snapshot state in {} (neither its answer nor a snapshot status report)",
+                    id,
+                    pid,
+                    match kind {
+                        CallKind::Step(m) => format!("step({:?} from {})", m.get_msg_type(), m.from),
+                        CallKind::Unreachable(to) => format!("report_unreachable({})", to),
+                        CallKind::Tick => "tick".to_string(),
+                        _ => "another call".to_string(),
+                    }
+                ),
+            );
         }
         if let CallKind::Unreachable(_) | CallKind::ReportSnap(..) = kind {
             // become_probe from Probe keeps the state but starts a new probe round
